@@ -110,6 +110,8 @@ def run_incremental(scn, sched_tape, stop_factory=None, step_cap=None, lenient=F
         if isinstance(res, ExecutionResult):
             rr.kind = "single"
             rr.single = res.formatted
+            if stop is not None and hasattr(stop, "on_end"):
+                stop.on_end()
             return
         assert isinstance(res, ExperimentalIncrementalExecutionResults)
         rr.kind = "incremental"
@@ -144,6 +146,8 @@ def run_incremental(scn, sched_tape, stop_factory=None, step_cap=None, lenient=F
             except StopAsyncIteration:
                 rr.waiting = None
                 rr.ended = True
+                if stop is not None and hasattr(stop, "on_end"):
+                    stop.on_end()
                 if rr.protocol_error is None:
                     try:
                         mon.on_end()
